@@ -64,6 +64,22 @@ class FakeElement:
         for c in list(children):
             self.append(c)
 
+    def replace(self, old, new):
+        i = self.index(old)
+        self.remove(old)
+        self.insert(i, new)
+
+    def iterdescendants(self):
+        for c in self._children:
+            yield c
+            yield from c.iterdescendants()
+
+    def getiterator(self, tag=None):
+        """self and all descendants, document order (lxml's deprecated alias of iter())"""
+        return [e for e in [self] + list(self.iterdescendants()) if isinstance(e.tag, str)]
+
+    iter = getiterator
+
     def __pyvc_copy__(self):
         new = FakeElement(self.tag, dict(self.attrib), nsmap=self.nsmap)
         for c in self._children:
@@ -130,3 +146,35 @@ def num_of(H, v):
 
         return H.ctx.str_to_real(v) if isinstance(v, SStr) else float(v)
     return float(v)
+
+
+def local(el):
+    return el.tag.split("}")[-1] if isinstance(el.tag, str) else None
+
+
+def install_xpath(H, svg_cls):
+    """SVG.xpath / xpath_one / resolve_url answered on the fake tree for the handful of queries the code under contract
+    uses (assumed contract of lxml's XPath, DESIGN 3.6)."""
+    import re
+
+    def xpath(I, self, query, el=None, expected_result_range=None):
+        base = el if el is not None else self.svg_root
+        everything = [self.svg_root] + list(self.svg_root.iterdescendants())
+        desc = list(base.iterdescendants())
+        if query == ".//svg:*[@id]":
+            out = [e for e in desc if isinstance(e.tag, str) and "id" in e.attrib]
+        elif query == ".//svg:use":
+            out = [e for e in desc if local(e) == "use"]
+        elif query == "descendant-or-self::svg:use":
+            out = [e for e in [base] + desc if local(e) == "use"]
+        else:
+            m = re.fullmatch(r'(?:\.)?//svg:(\*|\w+)\[@id="([^"]+)"\]', query)
+            if not m:
+                raise AssertionError(f"fake tree: unsupported xpath {query!r}")
+            out = [e for e in everything if isinstance(e.tag, str) and e.attrib.get("id") == m.group(2) and (m.group(1) == "*" or local(e) == m.group(1))]
+        if expected_result_range and len(out) not in expected_result_range:
+            raise ValueError(f"Expected {query} matches in {expected_result_range}, {len(out)} results")
+        return out
+
+    if H.mode == "sym":
+        H.override(svg_cls.xpath, xpath)
